@@ -51,7 +51,8 @@ static std::map<std::string, sg4::Link*> links;
 static std::map<std::string, sg4::SplitDuplexLink*> dlinks;
 static std::map<std::string, sg4::Disk*> disks;
 static std::map<std::string, sg4::VirtualMachine*> vms; // live VMs only
-static std::map<int, sg4::ActorPtr> latest;
+static std::map<int, sg4::ActorPtr> latest; // script -> most recent incarnation still alive (dropped at its termination)
+static std::vector<sg4::ActorPtr> graveyard;
 static std::vector<sg4::ActivityPtr> maestro_acts;
 static long executed_ops = 0;
 static const long BUDGET = 800;
@@ -102,6 +103,7 @@ static void body(int k)
     const auto& t = ops[i].t;
     if (++executed_ops > BUDGET)
       break;
+    graveyard.clear();
     const std::string& n = t[0];
     try {
       if (n == "sleep") {
@@ -174,7 +176,7 @@ static void body(int k)
           continue;
         spawn(std::stoi(t[1]), h);
       } else if (n == "kill" || n == "suspend" || n == "resume" || n == "join") {
-        auto it = latest.find(std::stoi(t[1]));
+        auto it = latest.find(std::stoi(t[1])); // only live actors are in there: nothing is done on a terminated actor
         if (it == latest.end() || it->second.get() == self.get())
           continue;
         sg4::ActorPtr a = it->second;
@@ -478,9 +480,18 @@ int main(int argc, char** argv)
     if (s.autorestart)
       a->set_auto_restart(true);
   }
+  sg4::Actor::on_termination_cb([](sg4::Actor const& a) {
+    for (auto it = latest.begin(); it != latest.end(); ++it)
+      if (it->second.get() == &a) {
+        graveyard.push_back(it->second); // released later from user context, as a program dropping its ActorPtr would do
+        latest.erase(it);
+        break;
+      }
+  });
   e.run();
   printf("END %.17g\n", now());
   latest.clear();
+  graveyard.clear();
   maestro_acts.clear();
   return 0;
 }
